@@ -236,6 +236,16 @@ static void Array_Concat(var self, var obj) {
   Array_Reserve_More(a);
   a->nitems -= olen;
   
+  /* Concatenated with itself: the items there were when the call began */
+  if (self is obj) {
+    for (size_t i = 0; i < olen; i++) {
+      Array_Alloc(a, a->nitems);
+      assign(Array_Item(a, a->nitems), Array_Item(a, i));
+      a->nitems++;
+    }
+    return;
+  }
+  
   foreach (item in obj) {
     Array_Alloc(a, a->nitems);
     assign(Array_Item(a, a->nitems), item);
